@@ -398,8 +398,7 @@ def impl_gram(c):
         from mrpro.data import SpatialDimension
         from mrpro.operators import FourierOp
         from props import C03
-        traj, _ = C03._traj(c)
-        op = FourierOp(SpatialDimension(*c['recon']), SpatialDimension(*c['enc']), traj)
+        op = C03.build_fourier(c)
         in_shape = [1, 1, *c['recon']]
     g = op.gram
     n = opzoo.prod(in_shape)
